@@ -116,6 +116,11 @@ struct Item {
     /// (closure bodies inlined, parameters bound by `let`), so closures that capture `&mut` state (a PRNG) disappear
     #[serde(default)]
     fuse: bool,
+    /// E14d (with `loopify=Vec fuse`): the function's TAIL expression is an iterator pipeline that is RETURNED
+    /// (`X.flat_map(..)` as `impl Iterator`): it is evaluated eagerly into a Vec by the E14 loops and `vx_accN.into_iter()` is
+    /// returned instead (same item sequence; laziness is dropped)
+    #[serde(default)]
+    eager: bool,
 }
 
 #[derive(Deserialize, Debug)]
@@ -258,6 +263,7 @@ struct Ctx<'a> {
     /// occurrences counters for anchors
     anchor_occ: BTreeMap<String, usize>,
     self_iter_types: Vec<String>,
+    eager_tail: Option<(usize, usize)>,
 }
 
 impl<'a> Ctx<'a> {
@@ -427,6 +433,9 @@ impl<'a> Ctx<'a> {
         self.add(prev_end, seg_end, format!("{pending}{sink}({cur}); {closers} {le} }} "), "E14 collect -> accumulator loops");
     }
     fn loopify_collect_fused(&mut self, whole: &syn::Expr, mc: &syn::ExprMethodCall) {
+        self.loopify_pipeline(whole, &mc.receiver, "");
+    }
+    fn loopify_pipeline(&mut self, whole: &syn::Expr, recv: &syn::Expr, result_suffix: &str) {
         let n = self.sites.get("loopified_collect").cloned().unwrap_or(0);
         self.site("loopified_collect");
         let kinds: Vec<String> = self.item.loopify.clone().unwrap().split(',').map(|s| s.trim().to_string()).collect();
@@ -434,7 +443,7 @@ impl<'a> Ctx<'a> {
         let acc = format!("vx_acc{}", n + 1);
         let sink = if acc_ty == "Vec" { format!("{acc}.push") } else { format!("{acc}.insert") };
         let mut segs: Vec<&syn::Expr> = vec![];
-        let mut cur: &syn::Expr = &mc.receiver;
+        let mut cur: &syn::Expr = recv;
         loop {
             match cur {
                 syn::Expr::MethodCall(c) if c.method == "chain" && c.args.len() == 1 => { segs.push(&c.args[0]); cur = &c.receiver; }
@@ -449,7 +458,8 @@ impl<'a> Ctx<'a> {
             let next_start = if k + 1 < segs.len() { self.src.range(segs[k + 1].span()).0 } else { we };
             self.emit_pipeline(seg, next_start, &sink);
         }
-        self.add(we, we, format!(" {acc} }}"), "E14 collect -> accumulator loops");
+        let rule = if result_suffix.is_empty() { "E14 collect -> accumulator loops" } else { "E14d returned pipeline evaluated eagerly" };
+        self.add(we, we, format!(" {acc}{result_suffix} }}"), rule);
     }
     fn loopify_collect(&mut self, whole: &syn::Expr, mc: &syn::ExprMethodCall) {
         use syn::visit::Visit;
@@ -887,6 +897,13 @@ impl<'a, 'ast> Visit<'ast> for Ctx<'a> {
     }
 
     fn visit_expr(&mut self, e: &'ast syn::Expr) {
+        if let Some(r) = self.eager_tail {
+            if self.src.range(e.span()) == r {
+                self.eager_tail = None;
+                self.loopify_pipeline(e, e, ".into_iter()");
+                return;
+            }
+        }
         match e {
             syn::Expr::Macro(em) => {
                 self.macro_edit(&em.mac, em.span(), false);
@@ -1422,7 +1439,7 @@ fn extract_fn(file: &syn::File, src: &Src, it: &Item) -> ItemOut {
     out.orig_start_line = src.line_of(ws);
     out.orig_end_line = src.line_of(we);
 
-    let mut cx = Ctx { src, item: it, edits: vec![], seq: 0, loops: vec![], closures: 0, sites: BTreeMap::new(), errors: vec![], anchors_found: vec![], ptr_base: BTreeMap::new(), ptr_elem: BTreeMap::new(), ptr_cursor: BTreeMap::new(), ptr_end: BTreeMap::new(), tmp_n: 0, ptr_pos: BTreeMap::new(), hoisted: vec![], in_impl: false, inline_checks: vec![], anchor_occ: BTreeMap::new(), self_iter_types: vec![] };
+    let mut cx = Ctx { src, item: it, edits: vec![], seq: 0, loops: vec![], closures: 0, sites: BTreeMap::new(), errors: vec![], anchors_found: vec![], ptr_base: BTreeMap::new(), ptr_elem: BTreeMap::new(), ptr_cursor: BTreeMap::new(), ptr_end: BTreeMap::new(), tmp_n: 0, ptr_pos: BTreeMap::new(), hoisted: vec![], in_impl: false, inline_checks: vec![], anchor_occ: BTreeMap::new(), self_iter_types: vec![], eager_tail: None };
 
     // ---- signature, rebuilt from source slices (E0, E2, E10, E11) ----
     let mut sigtxt = String::new();
@@ -1436,7 +1453,7 @@ fn extract_fn(file: &syn::File, src: &Src, it: &Item) -> ItemOut {
     // inputs: visit for subst
     let (ps, pe) = src.range(sig.paren_token.span.join());
     {
-        let mut sub = Ctx { src, item: it, edits: vec![], seq: 0, loops: vec![], closures: 0, sites: BTreeMap::new(), errors: vec![], anchors_found: vec![], ptr_base: BTreeMap::new(), ptr_elem: BTreeMap::new(), ptr_cursor: BTreeMap::new(), ptr_end: BTreeMap::new(), tmp_n: 0, ptr_pos: BTreeMap::new(), hoisted: vec![], in_impl: false, inline_checks: vec![], anchor_occ: BTreeMap::new(), self_iter_types: vec![] };
+        let mut sub = Ctx { src, item: it, edits: vec![], seq: 0, loops: vec![], closures: 0, sites: BTreeMap::new(), errors: vec![], anchors_found: vec![], ptr_base: BTreeMap::new(), ptr_elem: BTreeMap::new(), ptr_cursor: BTreeMap::new(), ptr_end: BTreeMap::new(), tmp_n: 0, ptr_pos: BTreeMap::new(), hoisted: vec![], in_impl: false, inline_checks: vec![], anchor_occ: BTreeMap::new(), self_iter_types: vec![], eager_tail: None };
         for inp in &sig.inputs { sub.visit_fn_arg(inp); }
         // E0b: a wildcard parameter pattern `_: T` (rejected by Verus) gets a fresh unused name
         let mut wn = 0;
@@ -1456,7 +1473,7 @@ fn extract_fn(file: &syn::File, src: &Src, it: &Item) -> ItemOut {
     }
     if let syn::ReturnType::Type(_, ty) = &sig.output {
         let (ts, te) = src.range(ty.span());
-        let mut sub = Ctx { src, item: it, edits: vec![], seq: 0, loops: vec![], closures: 0, sites: BTreeMap::new(), errors: vec![], anchors_found: vec![], ptr_base: BTreeMap::new(), ptr_elem: BTreeMap::new(), ptr_cursor: BTreeMap::new(), ptr_end: BTreeMap::new(), tmp_n: 0, ptr_pos: BTreeMap::new(), hoisted: vec![], in_impl: false, inline_checks: vec![], anchor_occ: BTreeMap::new(), self_iter_types: vec![] };
+        let mut sub = Ctx { src, item: it, edits: vec![], seq: 0, loops: vec![], closures: 0, sites: BTreeMap::new(), errors: vec![], anchors_found: vec![], ptr_base: BTreeMap::new(), ptr_elem: BTreeMap::new(), ptr_cursor: BTreeMap::new(), ptr_end: BTreeMap::new(), tmp_n: 0, ptr_pos: BTreeMap::new(), hoisted: vec![], in_impl: false, inline_checks: vec![], anchor_occ: BTreeMap::new(), self_iter_types: vec![], eager_tail: None };
         sub.visit_type(ty);
         let mut errs = vec![];
         let mut t = norm(&apply_edits(src, ts, te, sub.edits.clone(), &mut errs));
@@ -1485,6 +1502,12 @@ fn extract_fn(file: &syn::File, src: &Src, it: &Item) -> ItemOut {
 
     // ---- body ----
     cx.in_impl = _im.is_some();
+    if it.eager {
+        match block.stmts.last() {
+            Some(syn::Stmt::Expr(t, None)) => { cx.eager_tail = Some(src.range(t.span())); }
+            _ => cx.errors.push("E14d: `eager` needs a tail expression".into()),
+        }
+    }
     cx.visit_block(block);
     let (bs, be) = src.range(block.span());
     // fn_start / fn_end anchors
@@ -1651,7 +1674,7 @@ fn extract_struct(file: &syn::File, src: &Src, it: &Item) -> ItemOut {
                 out.orig_text = src.text[ws..we].to_string();
                 out.orig_start_line = src.line_of(ws);
                 out.orig_end_line = src.line_of(we);
-                let mut cx = Ctx { src, item: it, edits: vec![], seq: 0, loops: vec![], closures: 0, sites: BTreeMap::new(), errors: vec![], anchors_found: vec![], ptr_base: BTreeMap::new(), ptr_elem: BTreeMap::new(), ptr_cursor: BTreeMap::new(), ptr_end: BTreeMap::new(), tmp_n: 0, ptr_pos: BTreeMap::new(), hoisted: vec![], in_impl: false, inline_checks: vec![], anchor_occ: BTreeMap::new(), self_iter_types: vec![] };
+                let mut cx = Ctx { src, item: it, edits: vec![], seq: 0, loops: vec![], closures: 0, sites: BTreeMap::new(), errors: vec![], anchors_found: vec![], ptr_base: BTreeMap::new(), ptr_elem: BTreeMap::new(), ptr_cursor: BTreeMap::new(), ptr_end: BTreeMap::new(), tmp_n: 0, ptr_pos: BTreeMap::new(), hoisted: vec![], in_impl: false, inline_checks: vec![], anchor_occ: BTreeMap::new(), self_iter_types: vec![], eager_tail: None };
                 cx.visit_fields(&s.fields);
                 if let Some(pf) = &it.ptr_field {
                     // E5c: the raw-pointer field becomes the borrowed slice it is taken from
